@@ -260,8 +260,12 @@ class Recorder:
                 if event == "subprocess.Popen":
                     s = rec.st()
                     rec.log("Hook")
+                    try:
+                        locked = rec.storage._lock.locked      # the lock object's own view (process-wide)
+                    except Exception:
+                        locked = "?"
                     rec.files.append(dict(t="main" if threading.get_ident() == rec.main else "other", ev="exec",
-                                          path=str(args[0])[:80], write=False, held=s.held, op=s.op))
+                                          path=str(args[0])[:80], write=False, held=s.held, op=s.op, locked=locked))
                     return
                 if event == "open":
                     path, mode, flags = args[0], args[1], args[2]
